@@ -249,7 +249,8 @@ class CircuitTemplate(AbstractBaseTemplate):
         if edges:
             edges = update_edges(self.edges, edges)
         else:
-            edges = self.edges
+            # a new instance gets its own edge attribute dicts (update_var(edge_vars=...) writes into them in place)
+            edges = self.edges if in_place else deepcopy(self.edges)
 
         # either create new instance with updates or store updates on current template instance
         if not in_place:
